@@ -871,7 +871,17 @@ fn drive_default(s: &[u8], src: Source, ch: &[u8]) -> Vec<Res> {
 
 /// The payload pool: five valid files from the generator and one payload that is not SML.
 fn c10_pool() -> Vec<(Vec<u8>, Option<RFile>)> {
-    let e = |i: u32| REntry { obj_name: vec![1, 0, i as u8, 8, 0, 0xff], status: Some(RStatus::S8(i as u8)), val_time: None, unit: Some(30), scaler: Some(-1), value: RValue::I32(-(i as i32) * 1000), sig: None };
+    // payload bytes that exercise the transport layer inside real SML content: zeros directly in
+    // front of an escaped 1b1b1b1b, a trailing 0x1b run, trailing zeros
+    let e = |i: u32| REntry {
+        obj_name: vec![1, 0, i as u8, 0, 0, 0x1b, 0x1b, 0x1b, 0x1b, 0, 0xff],
+        status: Some(RStatus::S8(i as u8)),
+        val_time: None,
+        unit: Some(30),
+        scaler: Some(-1),
+        value: if i == 1 { RValue::Bytes(vec![0x1b, 0x1b, 0x1b, 0x1b, 0x1b, 0, 0, 0, 0, 0, 0x1b]) } else { RValue::I32(-(i as i32) * 1000) },
+        sig: if i == 2 { Some(vec![0x01, 0x01, 0x01, 0x01, 0x1b, 0x1b]) } else { None },
+    };
     let gl = |vals: Vec<REntry>| RMsg { tid: vec![0xaa, 0xbb], group: 0, abort: 0, body: RBody::GetList { client_id: None, server_id: vec![1, 2, 3], list_name: None, act_sensor_time: Some(RTime::SecIndex(99)), vals, list_sig: None, act_gateway_time: None } };
     let open = RMsg { tid: vec![1], group: 0, abort: 0, body: RBody::Open { codepage: None, client_id: None, req_file_id: vec![7], server_id: vec![1, 2, 3], ref_time: None, sml_version: None } };
     let close = RMsg { tid: vec![2], group: 0, abort: 0, body: RBody::Close { sig: None } };
@@ -1063,8 +1073,8 @@ pub fn run_c10(tier: Tier) -> ! {
                 }
                 // full choice tree for three noise placements per file sequence, uniform choices for all
                 let full_tree = ni == 0 || ni == nplace / 2 + 1 || ni == nplace - 1;
-                if k == 3 && !(ni % 37 == 0) {
-                    continue; // three files: every 37th noise placement (the count is reported)
+                if k == 3 && !(ni % 5 == 0) {
+                    continue; // three files: every 5th noise placement (the count is reported)
                 }
                 items.push((fs.clone(), ns, if full_tree && k <= 2 { 1 } else { 0 }));
             }
